@@ -227,6 +227,7 @@ pub fn run_c08_files(tier: &str, rng: &mut Rng, model: &Model, rep: &mut Report,
     let mut run_one = |c: &CovCase, section: &str, rep: &mut Report| {
         counter += 1;
         let uid = format!("c08_{}", counter);
+        progress(&c.req());
         rep.evaluations += 1;
         rep.count(&format!("{}/memory:{}", section, if c.mem < 1.0 { "per-record" } else { "once" }), 1);
         rep.count(&format!("{}/alt:{}", section, c.alt.is_some()), 1);
@@ -294,5 +295,14 @@ pub fn run_c08_files(tier: &str, rng: &mut Rng, model: &Model, rep: &mut Report,
             mem: *rng.pick(&[6.0, 1.0, 0.5, 1e-7, 1e-8]),
         };
         run_one(&c, "files", rep);
+    }
+    // many records in one batch with several threads (rows must stay in input order)
+    let rounds = if tier == "thorough" { 6 } else { 1 };
+    for _ in 0..rounds {
+        let k = 3;
+        let n = rng.range(2200, 3500) as usize;
+        let recs: Vec<Vec<u8>> = (0..n).map(|i| { let l = 3 + (i % 37); gen::clean_seq(rng, l, gen::Flavor::Uniform) }).collect();
+        let c = CovCase { recs, alt: None, k, bin_size: 2, bin_count: 4, norm: false, delim: b" ".to_vec(), threads: 8, mem: 6.0 };
+        run_one(&c, "many-records", rep);
     }
 }
